@@ -41,7 +41,7 @@ SCENARIO_COVERS = {
     "primitivCreateParameterWithValues": ["primitivDeleteParameter"],
     "INIT": ["primitivCreateParameterWithInitializer", "primitivInitializeParameterWithInitializer", "primitivApplyInitializer",
              "primitivDeleteInitializer", "primitivDeleteParameter"],
-    "primitivAddStatsToParameter": ["primitivHasParameterStats", "primitivGetParameterStats", "primitivGetParameterValue", "primitivGetParameterGradient",
+    "primitivAddStatsToParameter": ["primitivHasParameterStats", "primitivGetParameterValue", "primitivGetParameterGradient",
                                     "primitivGetParameterShape", "primitivGetDeviceFromParameter", "primitivResetParameterGradients",
                                     "primitivIsValidParameter"],
     "primitivSaveParameter": ["primitivLoadParameter"],
@@ -403,6 +403,7 @@ def eq_generators():
     G["primitivAddStatsToParameter"] = lambda rng: (lambda d: "%s %s s:%s %s" % (stok(d, 1), ttok(rng, d, 1), rng.choice(["m", "v", "x.y", "no-such-stats"]),
                                                                               stok(*rshape(rng))))(rshape(rng, 3)[0]) + inv(rng)
     G["primitivApplyTensorParameter"] = lambda rng: (lambda d: "%s %s %d" % (stok(d, 1), ttok(rng, d, 1), rng.choice([0, 1])))(rshape(rng, 3)[0]) + inv(rng)
+    G["primitivGetParameterStats"] = lambda rng: (lambda d: "%s %s s:%s" % (stok(d, 1), ttok(rng, d, 1), rng.choice(["present", "no-such-stats", "m", "x.y"])))(rshape(rng, 3)[0])
     G["primitivSaveParameter"] = lambda rng: (lambda d: "%s %s %d %d" % (stok(d, 1), ttok(rng, d, 1), rng.choice([0, 1]), rng.choice([0, 1])))(rshape(rng, 3)[0]) + inv(rng)
     G["primitivAddParameterToModel"] = lambda rng: "s:%s s:%s" % (rng.choice(["a", "p", "w.x", "q"]), rng.choice(["a", "b", "sub", "q"]))
     G["primitivCreateModel"] = lambda rng: ""
@@ -413,6 +414,96 @@ def eq_generators():
     G["primitivCreateNaiveDeviceWithSeed"] = lambda rng: "%d %d %d" % (ru32(rng, (0, 1, 12345)), rng.choice([0, 1]), rng.choice([0, 1]))
     G["primitivResetStatus"] = lambda rng: ""
     return G
+
+
+X652 = "T:6,5,2/2:1,-2,3,0.5,-1,2,4"
+W2222 = "T:2,2,2,2/1:1,-1,2,0.5,3"
+M34 = "T:3,4/2:1,5,-2,7,0.5,3,-4"
+
+
+def fixed_eq_lines():
+    """Always run: boundary by-value arguments (seeds, epochs, axes / ids / sizes 0 and 2^32-1) and anisotropic
+    values for the wrappers with several same-typed by-value arguments (an exchange of two of them changes the result)."""
+    out = []
+    for seed in (0, U32MAX, 1, 2 ** 31):
+        for eigen in (0, 1):
+            out.append("eq primitivCreateNaiveDeviceWithSeed %d %d 1" % (seed, eigen))
+    out.append("eq primitivCreateNaiveDeviceWithSeed 0 0 0")
+    out.append("eq primitivCreateNaiveDeviceWithSeed 0 1 0")
+    for k, nm in enumerate(OPT_NAMES):
+        for epoch, iv in ((0, 0), (U32MAX, U32MAX), (0, U32MAX), (U32MAX, 0)):
+            out.append("eq %s F:0.5 F:0.25 %d F:1 F:0 F:0 s:Optimizer.epoch %d F:0 2" % (nm, epoch, iv))
+        out.append("eq %s F:0 F:0 0 F:0 F:0 F:0 s:Optimizer.lr_scale 0 F:0 0" % nm)
+    for V in ("Tensor", "Node"):
+        P = "primitivApply" + V
+        # anisotropic: padding (1,0) stride (1,2) dilation (2,1) and the mirror image
+        out.append("eq %sConv2d %s %s 1 0 1 2 2 1" % (P, X652, W2222))
+        out.append("eq %sConv2d %s %s 0 1 2 1 1 2" % (P, X652, W2222))
+        out.append("eq %sConv2d %s %s 0 0 1 1 1 1" % (P, X652, W2222))
+        out.append("eq %sConv2d %s %s 0 0 0 1 1 1" % (P, X652, W2222))
+        out.append("eq %sConv2d %s %s 0 0 1 1 1 0" % (P, X652, W2222))
+        out.append("eq %sMaxPool2d %s 3 2 1 0 2 1" % (P, X652))
+        out.append("eq %sMaxPool2d %s 2 3 0 1 1 2" % (P, X652))
+        out.append("eq %sMaxPool2d %s 1 1 0 0 1 1" % (P, X652))
+        out.append("eq %sMaxPool2d %s 0 1 0 0 1 1" % (P, X652))
+        out.append("eq %sMaxPool2d %s 2 2 0 0 1 0" % (P, X652))
+        out.append("eq %sSlice %s 1 1 3" % (P, M34))
+        out.append("eq %sSlice %s 0 0 2" % (P, M34))
+        out.append("eq %sSlice %s 0 0 0" % (P, M34))
+        out.append("eq %sSlice %s 1 3 1" % (P, M34))
+        out.append("eq %sSlice %s %d 0 1" % (P, M34, U32MAX))
+        out.append("eq %sPick %s L:2,0 1" % (P, M34))
+        out.append("eq %sPick %s L:1 0" % (P, M34))
+        out.append("eq %sPick %s L:0,0 0" % (P, M34))
+        out.append("eq %sPick %s L:0 %d" % (P, M34, U32MAX))
+        out.append("eq %sPick %s L:%d 0" % (P, M34, U32MAX))
+        out.append("eq %sBatchPick %s L:0" % (P, M34))
+        out.append("eq %sBatchPick %s L:1,0,1" % (P, M34))
+        out.append("eq %sBatchSlice T:2/4:1,2,3 1 3" % P)
+        out.append("eq %sBatchSlice T:2/4:1,2,3 0 0" % P)
+        out.append("eq %sBroadcast T:1,3/1:1,2,3 0 4" % P)
+        out.append("eq %sBroadcast T:1,3/1:1,2,3 0 0" % P)
+        out.append("eq %sBroadcast T:3,1/1:1,2,3 1 2" % P)
+        out.append("eq %sSplit T:4,2/1:1,2,3 0 2" % P)
+        out.append("eq %sSplit T:4,2/1:1,2,3 1 2" % P)
+        out.append("eq %sSplit T:4,2/1:1,2,3 0 0" % P)
+        out.append("eq %sBatchSplit T:2/4:1,2,3 2" % P)
+        out.append("eq %sBatchSplit T:2/4:1,2,3 0" % P)
+        out.append("eq %sIdentity 0 0" % P)
+        out.append("eq %sIdentity %d 0" % (P, U32MAX))
+        out.append("eq %sPowN %s 0" % (P, M34))
+        out.append("eq %sPermuteDims %s L:1,0" % (P, M34))
+        out.append("eq %sSoftmaxCrossEntropyWithArray %s L:0,2 0" % (P, M34))
+        out.append("eq %sSoftmaxCrossEntropyWithArray %s L:0,2 1" % (P, M34))
+        for f in DIMF:
+            out.append("eq %s%s %s 0" % (P, f, M34))
+            out.append("eq %s%s %s 1" % (P, f, M34))
+    out += ["eq primitivGetShapeDimSize S:2,3/4 0", "eq primitivGetShapeDimSize S:2,3/4 %d" % U32MAX, "eq primitivGetShapeLowerVolume S:2,3/4 0",
+            "eq primitivResizeShapeDim S:2,3/1 1 5", "eq primitivResizeShapeDim S:2,3/1 5 1", "eq primitivResizeShapeDim S:2,3/1 0 0",
+            "eq primitivUpdateShapeDim S:2,3/1 1 5", "eq primitivUpdateShapeDim S:2,3/1 5 1", "eq primitivResizeShapeBatch S:2,3/1 0",
+            "eq primitivResizeShapeBatch S:2,3/1 %d" % U32MAX, "eq primitivUpdateShapeBatchSize S:2,3/1 0",
+            "eq primitivHasShapeSameLooDims S:2,3/1 S:2,4/1 1", "eq primitivHasShapeSameLooDims S:2,3/1 S:2,4/1 0",
+            "eq primitivCreateShapeWithDims L:0 1", "eq primitivCreateShapeWithDims L:2,3 0", "eq primitivCreateShapeWithDims L: 1",
+            "eq primitivGetTensorArgmax %s 0" % M34, "eq primitivGetTensorArgmax %s 1" % M34, "eq primitivGetTensorArgmin %s 2" % M34,
+            "eq primitivGetParameterStats S:2,2/1 T:2,2/1:1,2 s:no-such-stats", "eq primitivGetParameterStats S:2,2/1 T:2,2/1:1,2 s:present"]
+    return out
+
+
+def sizeq_fixtures(rng, quick):
+    """(function, fixture tail) for the array-returning functions on minibatched tensors / nodes: batch 2..4, axes 0..depth+1"""
+    out = []
+    shapes = [([3], 2), ([2, 3], 3), ([2, 1, 2], 4), ([], 2), ([4, 2], 4)]
+    for dims, b in shapes:
+        t = "T:%s/%d:%s" % (",".join(map(str, dims)), b, vals(rng, 5))
+        for fn in ("primitivGetTensorArgmax", "primitivGetTensorArgmin", "primitivGetNodeArgmax", "primitivGetNodeArgmin"):
+            for dim in range(0, len(dims) + 2):
+                out.append((fn, "%s %d" % (t, dim)))
+        for fn in ("primitivEvaluateTensorAsArray", "primitivEvaluateNodeAsArray", "primitivGetShapeDims", "primitivRepresentShapeAsString"):
+            out.append((fn, "%s 0" % t))
+    if quick:
+        rng.shuffle(out)
+        out = out[:24]
+    return out
 
 
 def eq_lines(rng, per_case):
@@ -562,7 +653,7 @@ def make_judge(byname, stats=None):
             if impl not in ("ok same", "ok same error", "bad-op"):
                 return "C API and C++ API disagree: " + impl[:300]
             return None
-        if w[0] == "sizeq" and w[1] in SIZEQ_FUNCS and len(w) == 4:
+        if w[0] == "sizeq" and w[1] in SIZEQ_FUNCS and len(w) in (4, 6):
             ln = int(w[2]); extra = SIZEQ_FUNCS[w[1]]; req = ln + extra
             if w[3] == "null":
                 exp = "ok size=%d written=0" % req
@@ -642,7 +733,7 @@ def run(chk):
         lines += [l.strip() for l in open(corpus) if l.strip() and not l.startswith("#")]
     calls = call_lines(table, chk.tier)
     lines += calls
-    eqs = eq_lines(chk.rng, 4 if quick else 100)
+    eqs = fixed_eq_lines() + eq_lines(chk.rng, 4 if quick else 100)
     lines += eqs
     lines += ["call primitivNoSuchFunction v", "call primitivGetShapeDepth v", "call primitivGetShapeDepth v,q", "frobnicate", "eq primitivNoSuchFunction",
               "call primitivGetShapeDepth z,v", "sizeq primitivGetShapeDepth 1 1", "st fail nothing", "threads"]
@@ -657,21 +748,24 @@ def run(chk):
 
     # ---- size queries: phase 1 asks the implementation for the length of each source
     exe = build.build_harness("h_capi", extra_flags=flags)
-    q0 = ["sizeq0 " + f for f in sorted(SIZEQ_FUNCS)]
+    fixtures = [(f, "") for f in sorted(SIZEQ_FUNCS)] + sizeq_fixtures(chk.rng, quick)
+    q0 = [("sizeq0 %s %s" % (f, tail)).strip() for f, tail in fixtures]
     o0, _ = vrun.run_impl(exe, q0)
     sq = []
-    for l, o in zip(q0, o0):
+    for (fn, tail), l, o in zip(fixtures, q0, o0):
         m = re.match(r"ok (\d+)$", o)
         if not m:
-            chk.report("capi:%s:sizeq0" % l.split()[1], "size query set-up failed: %s -> %s" % (l, o), {"lines": [l], "observed_impl": o}, found_input=True)
+            chk.report("capi:%s:sizeq0" % fn, "size query set-up failed: %s -> %s" % (l, o), {"lines": [l], "observed_impl": o}, found_input=True)
             continue
         ln = int(m.group(1))
-        fn = l.split()[1]
-        caps = ["null"] + [str(c) for c in sorted(set([0, 1, max(ln - 1, 0), ln, ln + 1, ln + 2, ln + 7]))]
-        if not quick:
-            caps = ["null"] + [str(c) for c in range(0, min(ln, 40) + 3)] + [str(ln - 1), str(ln), str(ln + 1), str(ln + 100)]
+        if tail:
+            caps = ["null", str(max(ln - 1, 0)), str(ln), str(ln + 1)] + ([] if quick else ["0", str(ln + 5)])
+        else:
+            caps = ["null"] + [str(c) for c in sorted(set([0, 1, max(ln - 1, 0), ln, ln + 1, ln + 2, ln + 7]))]
+            if not quick:
+                caps = ["null"] + [str(c) for c in range(0, min(ln, 40) + 3)] + [str(ln - 1), str(ln), str(ln + 1), str(ln + 100)]
         for c in caps:
-            sq.append("sizeq %s %d %s" % (fn, ln, c))
+            sq.append(("sizeq %s %d %s %s" % (fn, ln, c, tail)).strip())
     seen = set()
     sq = [l for l in q0 + sq if not (l in seen or seen.add(l))]
     d2, j2, c2 = chk.correspond("capi", "h_capi", [sq], stateful=False, cmp=cmp, judge=judge, extra_flags=flags,
